@@ -365,6 +365,16 @@ class Ctx:
             sc = self._screen(frows, 2, plates=[f"p{i % 3}" for i in range(n)], swap=True)
             self._check_ids(sc, rows)
             return So(spec, sc, rows, 2)
+        if k == "merged":
+            # a plate that absorbed another one through Plate.merge (their rows interleave in the screen); own fresh screen
+            sc = self._screen(frows, 2, plates=[f"p{i % 3}" for i in range(n)])
+            ia = [i for i in range(n) if i % 3 == spec["p"]]
+            ib = [i for i in range(n) if i % 3 == spec["q"]]
+            pa, pb = sc.get_plate(int(sc.plate_ids[ia[0]])), sc.get_plate(int(sc.plate_ids[ib[0]]))
+            pa.merge(pb)
+            idx = sorted(ia + ib)
+            rows = [frows[i] for i in idx]
+            return So(spec, pa, rows, 2, whole_idx=idx, parent=sc)
         if k == "plate":
             idx = [i for i in range(n) if i % 3 == spec["p"]]
             pid = int(F.obj.plate_ids[idx[0]])
@@ -620,7 +630,14 @@ def check_helper(ctx, typ, D, seq, declared, so, col, snap_screen=True):
             raise
         if declared != k:
             col.outcome(typ, "helper-incomplete-returned", name)
-            continue  # no verdict: the statement speaks of one row per sample held
+            # a holder that is not full may be refused; if the helper answers it answers for the samples HELD: one row per
+            # sample (or their mean), never a row for a sample that is not there
+            rows_ = np.array([iv[which] for iv in indiv])
+            want_ = np.array([math.fsum(rows_[:, j]) / k for j in range(n)]) if avg else rows_
+            if not isinstance(out, np.ndarray) or out.shape != want_.shape or not close(out, want_):
+                bad("helper-incomplete", name, f"holder declared {declared} holds {k} samples: the helper returned shape {getattr(out, 'shape', None)} "
+                                               f"{np.asarray(out).tolist()}, one row per sample held would be {want_.tolist()}")
+            continue
         rows = np.array([iv[which] for iv in indiv])
         if avg:
             want = np.array([math.fsum(rows[:, j]) / k for j in range(n)])
@@ -674,6 +691,7 @@ def full_specs(ns, nt):
     sels += [[j for j in range(n) if j != i] for i in range(n)]
     sels += list(named.values())
     specs = [{"k": "full"}, {"k": "swapfull"}] + [{"k": "plate", "p": p} for p in range(3)]
+    specs += [{"k": "merged", "p": a, "q": b} for a in range(3) for b in range(3) if a != b]
     for sel in sels:
         specs.append({"k": "sub", "sel": sel})
         specs.append({"k": "reb", "sel": sel})
